@@ -266,6 +266,139 @@ mut("C11", "slash32-mask-off-by-one-in-list-contains", "util/netutil", [("util/n
  """			if f.ipList[i][1] > 1 && nip&ipv4Masks[f.ipList[i][1]-1] == f.ipList[i][0] {""")])
 
 
+# ---- C02 ---------------------------------------------------------------------------------
+mut("C02", "json-clone-fresh-mutex", "logger", [("logger/json_handler.go",
+ """		outMu:        h.outMu,
+		out:          h.out,
+		preformatted: slices.Clip(h.preformatted),
+		nOpenGroups:  h.nOpenGroups,""",
+ """		outMu:        &sync.Mutex{},
+		out:          h.out,
+		preformatted: slices.Clip(h.preformatted),
+		nOpenGroups:  h.nOpenGroups,""")])
+mut("C02", "text-unlock-before-write", "logger", [("logger/text_handler.go",
+ """	h.outMu.Lock()
+	defer h.outMu.Unlock()
+	_, err := h.out.Write(*buf)
+	return err""",
+ """	h.outMu.Lock()
+	h.outMu.Unlock()
+	_, err := h.out.Write(*buf)
+	return err""")])
+mut("C02", "nano-newline-second-write", "logger", [("logger/nano_handler.go",
+ """	*buf = append(*buf, '\\n')
+
+	h.outMu.Lock()
+	defer h.outMu.Unlock()
+	_, err := h.out.Write(*buf)
+	return err""",
+ """	h.outMu.Lock()
+	defer h.outMu.Unlock()
+	_, err := h.out.Write(*buf)
+	if err == nil {
+		_, err = h.out.Write([]byte{'\\n'})
+	}
+	return err""")])
+mut("C02", "freebuffer-keeps-big-prefix", "logger", [("logger/buffer.go",
+ """	if cap(*buf) <= maxBufferSize {
+		*buf = (*buf)[:0]
+		bufferPool.Put(buf)
+	}""",
+ """	if cap(*buf) <= maxBufferSize {
+		*buf = (*buf)[:0]
+		bufferPool.Put(buf)
+	} else if cap(*buf) <= 4*maxBufferSize {
+		*buf = (*buf)[:1]
+		bufferPool.Put(buf)
+	}""")])
+mut("C02", "json-buffer-freed-before-write", "logger", [("logger/json_handler.go",
+ """	h.outMu.Lock()
+	defer h.outMu.Unlock()
+	_, err := h.out.Write(*buf)
+	return err""",
+ """	line := *buf
+	freeBuffer(buf)
+	buf = new([]byte)
+	h.outMu.Lock()
+	defer h.outMu.Unlock()
+	_, err := h.out.Write(line)
+	return err""")])
+mut("C02", "logf-gate-strict", "logger", [("logger/logger.go",
+ """func (l *Logger) log(ctx context.Context, level slog.Level, msg string, args ...any) error {
+	if !l.h.Enabled(level) {""",
+ """func (l *Logger) log(ctx context.Context, level slog.Level, msg string, args ...any) error {
+	if !l.h.Enabled(level) || (len(args) > 1 && !l.h.Enabled(level-4)) {""")])
+mut("C02", "text-big-lines-split", "logger", [("logger/text_handler.go",
+ """	h.outMu.Lock()
+	defer h.outMu.Unlock()
+	_, err := h.out.Write(*buf)
+	return err""",
+ """	h.outMu.Lock()
+	defer h.outMu.Unlock()
+	if len(*buf) > 32<<10 {
+		if _, err := h.out.Write((*buf)[:32<<10]); err != nil {
+			return err
+		}
+		_, err := h.out.Write((*buf)[32<<10:])
+		return err
+	}
+	_, err := h.out.Write(*buf)
+	return err""")])
+
+
+# ---- C03 ---------------------------------------------------------------------------------
+for _h, _f in (("json", "logger/json_handler.go"), ("text", "logger/text_handler.go"), ("nano", "logger/nano_handler.go")):
+    mut("C03", _h + "-clone-without-clip", "logger", [(_f,
+     """		preformatted: slices.Clip(h.preformatted),""",
+     """		preformatted: slices.Grow(h.preformatted, 0),""")])
+mut("C03", "text-withgroup-mutates-receiver", "logger", [("logger/text_handler.go",
+ """	h2 := h.clone()
+	if len(h2.groupPrefix) == 0 {
+		h2.groupPrefix = name
+	} else {
+		h2.groupPrefix = h2.groupPrefix + "." + name
+	}
+	return h2""",
+ """	h2 := h.clone()
+	if len(h2.groupPrefix) == 0 {
+		h2.groupPrefix = name
+	} else {
+		h.groupPrefix = h.groupPrefix + "." + name
+		h2.groupPrefix = h.groupPrefix
+	}
+	return h2""")])
+mut("C03", "json-withattrs-appends-to-parent", "logger", [("logger/json_handler.go",
+ """	h2 := h.clone()
+	for _, a := range attrs {
+		if appendJsonAttr(&h2.preformatted, a, h2.addSep, h2.Options.colorful) {""",
+ """	h2 := h.clone()
+	h2.preformatted = h.preformatted
+	for _, a := range attrs {
+		if appendJsonAttr(&h2.preformatted, a, h2.addSep, h2.Options.colorful) {""")])
+mut("C03", "json-with-attrs-after-callsite", "logger", [("logger/json_handler.go",
+ """	if len(h.preformatted) > 0 {
+		*buf = append(*buf, h.preformatted...)
+	}
+
+	if r.NumAttrs() > 0 {""",
+ """	if len(h.preformatted) > 0 && (h.nOpenGroups > 0 || r.NumAttrs() == 0) {
+		*buf = append(*buf, h.preformatted...)
+	}
+	pre := len(h.preformatted) > 0 && h.nOpenGroups == 0 && r.NumAttrs() > 0
+
+	if r.NumAttrs() > 0 {"""),
+ ("logger/json_handler.go",
+ """	for i := 0; i < h.nOpenGroups; i++ {
+		*buf = append(*buf, '}')
+	}""",
+ """	if pre {
+		*buf = append(*buf, h.preformatted...)
+	}
+	for i := 0; i < h.nOpenGroups; i++ {
+		*buf = append(*buf, '}')
+	}""")])
+
+
 def run(cmd, cwd=None, timeout=900, repo=None):
     env = dict(ENV)
     if repo:
